@@ -218,7 +218,7 @@ func (s *Store) watchSnapshot(req stream.SubscribeRequest, snap stream.SnapshotA
 
 	results, err := listTxn(tx, q)
 	if err != nil {
-		return 0, nil
+		return 0, err
 	}
 
 	events := make([]stream.Event, 0, len(results)+1)
